@@ -89,6 +89,13 @@ func New(id, tier string) *Run {
 		}
 	}
 	r.Deadline = r.Start.Add(budget)
+	if os.Getenv("VERIF_WORKER_PHASE") == "" && os.Getenv("VERIF_ISO_WORKER") == "" && !isReplay() {
+		// replay files belong to one run: drop those of earlier runs
+		old, _ := filepath.Glob(filepath.Join(Root, "replays", id, "*.json"))
+		for _, f := range old {
+			_ = os.Remove(f)
+		}
+	}
 	b, err := os.ReadFile(filepath.Join(Root, "known_findings.json"))
 	if err == nil {
 		var all []Finding
@@ -103,6 +110,15 @@ func New(id, tier string) *Run {
 		}
 	}
 	return r
+}
+
+func isReplay() bool {
+	for _, a := range os.Args {
+		if a == "--replay" {
+			return true
+		}
+	}
+	return false
 }
 
 func (r *Run) Thorough() bool { return r.Tier == "thorough" }
